@@ -275,7 +275,7 @@ theorem C01_main (env : Env) (t : Tree) (hr : Representable env t = true)
     (spellTop env (.node .document ks)) (spellTop_well hf) (spellTop_abstractTop hf hsingle)
   rw [hA] at hb
   obtain ⟨p, hp, h1, h2, _⟩ := C02_positions_irrelevant_ok .document _ (strLen (renderTokens ts0)) env ts0 ts
-    her.symm p0 hb
+    her.1.symm her.2 p0 hb
   refine ⟨ts, p, hl, hp, by rw [h1]; exact hv, ?_⟩
   rw [h1, h2, hd]
   exact (spellTop_denote hf).1.symm
@@ -295,7 +295,7 @@ theorem C01_main_fragment (env : Env) (t : Tree) (hr : RepresentableFragment env
     (spellTop env (.node .document ks)) (spellTop_well hf)
   rw [hA] at hb
   obtain ⟨p, hp, h1, h2, _⟩ := C02_positions_irrelevant_ok .fragment _ (strLen (renderTokens ts0)) env ts0 ts
-    her.symm p0 hb
+    her.1.symm her.2 p0 hb
   refine ⟨ts, p, hl, hp, by rw [h1]; exact hv, ?_⟩
   rw [h1, h2, hd]
   exact (spellTop_denote hf).1.symm
@@ -356,7 +356,7 @@ theorem C01_main_identical (env : Env) (t : Tree) (hr : Representable env t = tr
   obtain ⟨ts, hl, her⟩ := hlex ts0 (C01_rendering_lexok env t hr ts0 hser)
   obtain ⟨p0, hb, ht, he⟩ := C01_build env t hr ts0 hser (strLen (renderTokens ts0))
   obtain ⟨p, hp, h1, h2, _⟩ := C02_positions_irrelevant_ok .document _ (strLen (renderTokens ts0)) env ts0 ts
-    her.symm p0 hb
+    her.1.symm her.2 p0 hb
   exact ⟨ts, p, hl, hp, by rw [h1, ht], by rw [h2, he]⟩
 
 /-- **C01_main_fragment, strong form** (`parse_fragment`). -/
@@ -369,7 +369,7 @@ theorem C01_main_fragment_identical (env : Env) (t : Tree) (hr : RepresentableFr
   obtain ⟨ts, hl, her⟩ := hlex ts0 (C01_rendering_lexok_fragment env t hr ts0 hser)
   obtain ⟨p0, hb, ht, he⟩ := C01_build_fragment env t hr ts0 hser (strLen (renderTokens ts0))
   obtain ⟨p, hp, h1, h2, _⟩ := C02_positions_irrelevant_ok .fragment _ (strLen (renderTokens ts0)) env ts0 ts
-    her.symm p0 hb
+    her.1.symm her.2 p0 hb
   exact ⟨ts, p, hl, hp, by rw [h1, ht], by rw [h2, he]⟩
 
 /-! Non-vacuity (the document `c01Doc` above: default namespace, prefixed child, attribute value with
